@@ -1058,9 +1058,12 @@ impl<'a> CompactionIterator<'a> {
 		let drop_latest_delete = self.is_bottom_level && !delete_hidden_from_a_snapshot;
 		let latest_is_delete_at_bottom = drop_latest_delete && latest_delete_seq.is_some();
 
-		// Check if any version is REPLACE
-		// REPLACE semantics: delete all older versions regardless of retention
-		let has_set_with_delete = self.accumulated_versions.iter().any(|(key, _)| key.is_replace());
+		// REPLACE semantics: delete all older versions regardless of retention.
+		// Holds the sequence number of the nearest REPLACE above the current
+		// version while walking from newest to oldest, so that a REPLACE only
+		// affects the versions below it - and only once no snapshot predates it
+		// (a reader that began before the REPLACE still sees what is below).
+		let mut newer_replace: Option<u64> = None;
 
 		// Track the visibility of the previous (newer) version we processed.
 		// Used to detect when a newer version supersedes an older one.
@@ -1153,11 +1156,15 @@ impl<'a> CompactionIterator<'a> {
 			} else if is_latest && is_replace {
 				// Latest REPLACE: not stale (will be output)
 				false
+			} else if !is_replace
+				&& newer_replace
+					.is_some_and(|r| !self.snapshots.first().is_some_and(|&oldest| oldest < r))
+			{
+				// Below a REPLACE that every reader can see: all older non-REPLACE
+				// versions are stale
+				true
 			} else if is_hard_delete {
 				// Older DELETE: always stale (only latest tombstone matters)
-				true
-			} else if has_set_with_delete && !is_replace {
-				// REPLACE found: all older non-REPLACE versions are stale
 				true
 			} else {
 				// Older PUT: check versioning and retention
@@ -1203,6 +1210,9 @@ impl<'a> CompactionIterator<'a> {
 
 			// Update for next iteration (this version becomes the "newer" one)
 			newer_version_visibility = Some(current_visibility);
+			if is_replace {
+				newer_replace = Some(seq_num);
+			}
 		}
 
 		// Clear accumulated versions for the next key
